@@ -3,6 +3,8 @@ package main
 
 import (
 	"context"
+	"runtime"
+	"sync/atomic"
 	"encoding/json"
 	"fmt"
 	"math/rand"
@@ -454,6 +456,107 @@ func hammer(r *vh.Run, kind kit.Kind, iters int) {
 	r.Distinct("hammer|" + string(kind))
 }
 
+// sameName: several goroutines register the SAME fresh name at the same instant (released together by a spin
+// barrier), round after round, on every registry; afterwards and meanwhile no list may show a name twice and the
+// final lists must hold every name exactly once (resources: in the order of first registration rounds).
+func sameName(r *vh.Run, kind kit.Kind, rounds int) {
+	in := kit.Start(kind, kit.Opts{})
+	defer in.Close()
+	g := &rig{in: in, url: in.URL()}
+	const W = 8
+	var round atomic.Int64
+	var arrived atomic.Int64
+	var wg sync.WaitGroup
+	stop := make(chan struct{})
+	dupSeen := atomic.Int64{}
+	// a reader lists all the time
+	var rw sync.WaitGroup
+	rw.Add(1)
+	go func() {
+		defer rw.Done()
+		cl, err := newClient(g.url)
+		if err != nil {
+			return
+		}
+		defer cl.hp.Close()
+		for {
+			select {
+			case <-stop:
+				return
+			default:
+			}
+			for _, rg := range []string{"tools", "prompts", "resources"} {
+				res := cl.do(op{Reg: rg, Kind: "list"})
+				seen := map[string]bool{}
+				for _, it := range res.Items {
+					n := it[:strings.Index(it, "=")]
+					if seen[n] && dupSeen.Add(1) == 1 {
+						r.Violation(fmt.Sprintf("C12|%s|%s|same-name|duplicate-entry-in-list", kind, rg), fmt.Sprintf("%s: a %s list shows the entry %q twice", kind, rg, n), map[string]interface{}{"entries": len(res.Items)})
+					}
+					seen[n] = true
+				}
+			}
+		}
+	}()
+	for w := 0; w < W; w++ {
+		wg.Add(1)
+		go func(w int) {
+			defer wg.Done()
+			for rd := int64(1); rd <= int64(rounds); rd++ {
+				arrived.Add(1)
+				for round.Load() < rd { // spin barrier: everybody starts the round at the same instant
+				}
+				n := fmt.Sprintf("same-%d", rd)
+				g.register(op{Reg: "tools", Name: n, Tag: fmt.Sprint(w)})
+				g.register(op{Reg: "prompts", Name: n, Tag: fmt.Sprint(w)})
+				g.register(op{Reg: "resources", Name: "res://" + n, Tag: fmt.Sprint(w)})
+			}
+		}(w)
+	}
+	for rd := int64(1); rd <= int64(rounds); rd++ {
+		for arrived.Load() < rd*W {
+			runtime.Gosched()
+		}
+		round.Store(rd)
+	}
+	wg.Wait()
+	close(stop)
+	rw.Wait()
+	cl, err := newClient(g.url)
+	if err != nil {
+		r.Violation("C12|"+string(kind)+"|client-handshake", err.Error(), nil)
+		return
+	}
+	defer cl.hp.Close()
+	for _, rg := range []string{"tools", "prompts", "resources"} {
+		res := cl.do(op{Reg: rg, Kind: "list"})
+		r.Eval(1)
+		count := map[string]int{}
+		for _, it := range res.Items {
+			count[it[:strings.Index(it, "=")]]++
+		}
+		dups, missing := 0, 0
+		for rd := 1; rd <= rounds; rd++ {
+			n := fmt.Sprintf("same-%d", rd)
+			if rg == "resources" {
+				n = "res://" + n
+			}
+			switch {
+			case count[n] > 1:
+				dups++
+			case count[n] == 0:
+				missing++
+			}
+		}
+		if dups > 0 || missing > 0 || len(res.Items) != rounds {
+			r.Violation(fmt.Sprintf("C12|%s|%s|same-name|list-not-the-registered-set", kind, rg), fmt.Sprintf("%s: after %d rounds of %d goroutines registering the same new name, the %s list has %d entries: %d names twice, %d missing", kind, rounds, W, rg, len(res.Items), dups, missing), nil)
+		} else {
+			r.Distinct(fmt.Sprintf("same-name|%s|%s", kind, rg))
+		}
+	}
+	r.Count("same_name_rounds", int64(rounds))
+}
+
 func child() {
 	kit.Silence()
 	cr := vh.NewChildRun("C12")
@@ -462,6 +565,8 @@ func child() {
 	to, _ := strconv.Atoi(os.Getenv("C12_TO"))
 	if os.Getenv("C12_MODE") == "hammer" {
 		hammer(cr, kind, to)
+	} else if os.Getenv("C12_MODE") == "samename" {
+		sameName(cr, kind, to)
 	} else {
 		for h := from; h < to; h++ {
 			history(cr, h, kind)
@@ -494,6 +599,7 @@ func main() {
 		jobs = append(jobs, job{k, "hist", b * batch, (b + 1) * batch, false})
 	}
 	jobs = append(jobs, job{kit.SJSON, "hammer", 0, r.Pick(150, 1500), false})
+	jobs = append(jobs, job{kit.SJSON, "samename", 0, r.Pick(3000, 20000), false})
 	raceBin := os.Getenv("VH_RACE_BIN")
 	if _, err := os.Stat(raceBin); err == nil {
 		jobs = append(jobs, job{kit.SJSON, "hammer", 0, r.Pick(60, 600), true}, job{kit.SJSON, "hist", 100000, 100000 + r.Pick(20, 200), true})
